@@ -569,12 +569,28 @@ impl Outcome {
     }
 }
 
-/// Register the libraries one after the other on a fresh runtime; stops at the
-/// first that does not succeed.
-fn run_impl(libs: &[Vec<It>]) -> (Vec<Outcome>, Option<Runtime<NoCtx>>) {
+/// what `Runtime::types()/functions()/constants()` hold (public getters): a rejected add must not change them
+fn getter_counts(rt: &Runtime<NoCtx>) -> (usize, usize, usize) {
+    (rt.types().len(), rt.functions().len(), rt.constants().len())
+}
+
+struct ImplRun {
+    outs: Vec<Outcome>,
+    /// the runtime after the last add (None after a panic: the host is gone)
+    rt: Option<Runtime<NoCtx>>,
+    /// (index of a rejected add, what the public getters show before -> after it)
+    leftovers: Vec<(usize, String)>,
+}
+
+/// Register the libraries one after the other on ONE fresh runtime. A rejected
+/// add is an error value the host handles: the session goes on with the same
+/// runtime (only a panic ends it).
+fn run_impl(libs: &[Vec<It>]) -> ImplRun {
     let mut outs = vec![];
+    let mut leftovers = vec![];
     let mut rt = Runtime::new();
-    for lib in libs {
+    for (k, lib) in libs.iter().enumerate() {
+        let before = getter_counts(&rt);
         let r = catch_unwind(AssertUnwindSafe(|| {
             let items = build(lib)?;
             rt.add(items)
@@ -583,15 +599,18 @@ fn run_impl(libs: &[Vec<It>]) -> (Vec<Outcome>, Option<Runtime<NoCtx>>) {
             Ok(Ok(())) => outs.push(Outcome::Ok),
             Ok(Err(e)) => {
                 outs.push(Outcome::Err(err_kind(&e).to_string()));
-                return (outs, None);
+                let after = getter_counts(&rt);
+                if after != before {
+                    leftovers.push((k, format!("(types, functions, constants) {before:?} -> {after:?}")));
+                }
             }
             Err(_) => {
                 outs.push(Outcome::Panic(PANIC_MSG.lock().map(|g| g.clone()).unwrap_or_default()));
-                return (outs, None);
+                return ImplRun { outs, rt: None, leftovers };
             }
         }
     }
-    (outs, Some(rt))
+    ImplRun { outs, rt: Some(rt), leftovers }
 }
 
 // ------------------------------------------------------------------ probes
@@ -638,6 +657,7 @@ fn probe_expr(path: &[String], info: &ItemInfo) -> Option<String> {
 fn probe_fn(idx: usize, pr: &Probe) -> String {
     match pr.info.kind {
         // a type path: usable as a parameter type, and it is the marker's type
+        "type" if pr.expect.is_none() => format!("fn p{idx}(x: {}) -> u64 {{ 0 }}\n", pr.path.join(".")),
         "type" => format!("fn p{idx}(x: {}) -> u64 {{ zzget{}(x) }}\n", pr.path.join("."), pr.info.marker),
         _ => format!("fn p{idx}() -> u64 {{ {} }}\n", probe_expr(&pr.path, &pr.info).unwrap()),
     }
@@ -719,6 +739,8 @@ fn model_seen(res: &str, pr: &Probe, by_tag: &BTreeMap<u64, ItemInfo>) -> Seen {
             let t = tag.unwrap_or(0);
             match by_tag.get(&t) {
                 Some(i) if i.shape == pr.info.shape => Seen::Tag(t),
+                // an item of a rejected library that the oracle's table does not list (second of two of one name)
+                None if pr.what == "failed-add" => Seen::Tag(t),
                 _ => Seen::No,
             }
         }
@@ -1195,79 +1217,125 @@ fn situation(libs: &[Vec<It>]) -> String {
 
 /// Run one session on the implementation and the model, compare with the
 /// oracle. `variants` are reorderings of the same libraries (index 0 = as given).
+///
+/// A session is a HISTORY on one runtime: a rejected add is an error the host
+/// handles, the next library goes to the same runtime. The property's oracle
+/// (and the model: `RotoV.Reg.session`) continue from the state before the
+/// rejected add — it must be as if that library had never been offered.
 fn check_session(rep: &mut Report, drv: &mut Driver, variants: &[Vec<Vec<It>>], note: &str, index: u64) -> SessionResult {
     let libs0 = &variants[0];
     let input = |v: &Vec<Vec<It>>| json!({"libs": libs_json(v), "note": note, "index": index});
     // oracle
     let mut spec = Spec::new();
-    let mut expect: Vec<&'static str> = vec![];
+    let mut expect: Vec<(&'static str, BTreeSet<Defect>)> = vec![];
     let mut defects_seen: BTreeSet<Defect> = BTreeSet::new();
+    // what the rejected libraries would have declared (path -> item)
+    let mut offered_in_vain: Vec<(Vec<String>, ItemInfo)> = vec![];
     for lib in libs0 {
         let (d, next) = spec.check(lib);
         if d.is_empty() {
-            expect.push("ok");
+            expect.push(("ok", d));
             spec = next;
         } else {
-            defects_seen.extend(d);
-            expect.push("err");
-            break;
-        }
-    }
-    let all_ok_expected = expect.iter().all(|e| *e == "ok");
-    let sit = situation(libs0);
-    let suffix = if sit.is_empty() { String::new() } else { format!(" {sit}") };
-
-    // probes from the oracle's view (only when every add should succeed)
-    let mut probes: Vec<Probe> = vec![];
-    if all_ok_expected {
-        let reach = spec.reachable();
-        let mut expected_paths: BTreeMap<Vec<String>, Vec<String>> = BTreeMap::new();
-        for (q, target, _) in &reach {
-            expected_paths.insert(q.clone(), target.clone());
-        }
-        for (q, target, nested) in &reach {
-            let info = spec.items[target].clone();
-            if !matches!(info.kind, "fn" | "method" | "const" | "type") {
-                continue;
-            }
-            // shadowing: a path whose first segment is declared at the root is the declared item
-            probes.push(Probe { path: q.clone(), info: info.clone(), expect: Some(info.tag), nested_use: *nested, what: if q == target { "declared" } else { "use" } });
-        }
-        // not reachable at undeclared paths: bare name at the root, and under a sibling module
-        let mut negs = 0;
-        for (p, info) in &spec.items {
-            if negs >= 4 || !matches!(info.kind, "fn" | "const") || p.len() < 2 {
-                continue;
-            }
-            let bare = vec![p.last().unwrap().clone()];
-            if !expected_paths.contains_key(&bare) && !spec.items.contains_key(&bare) {
-                // on this tree a use inside a module puts the name at the root (known finding)
-                let nested = spec.uses.iter().any(|((s, b), (_, n))| *n && !s.is_empty() && b == &bare[0]);
-                probes.push(Probe { path: bare, info: info.clone(), expect: None, nested_use: nested, what: "bare-at-root" });
-                negs += 1;
-            }
-            let mut wrong = p.clone();
-            wrong.remove(p.len() - 2);
-            if !expected_paths.contains_key(&wrong) && !wrong.is_empty() && !spec.items.contains_key(&wrong) {
-                let nested = wrong.len() == 1 && spec.uses.iter().any(|((s, b), (_, n))| *n && !s.is_empty() && b == &wrong[0]);
-                probes.push(Probe { path: wrong, info: info.clone(), expect: None, nested_use: nested, what: "skipped-module" });
-                negs += 1;
-            }
-        }
-        // a use inside a module must not make the name visible at the root
-        for ((scope, bound), (target, nested)) in &spec.uses {
-            if *nested && !scope.is_empty() {
-                if let Some(info) = spec.items.get(target) {
-                    let bare = vec![bound.clone()];
-                    if matches!(info.kind, "fn" | "const") && !expected_paths.contains_key(&bare) {
-                        probes.push(Probe { path: bare, info: info.clone(), expect: None, nested_use: true, what: "nested-use-at-root" });
-                    }
+            defects_seen.extend(d.iter().cloned());
+            expect.push(("err", d));
+            for (p, info) in &next.items {
+                if !spec.items.contains_key(p) {
+                    offered_in_vain.push((p.clone(), info.clone()));
                 }
             }
         }
     }
+    let sit = situation(libs0);
+    let suffix = if sit.is_empty() { String::new() } else { format!(" {sit}") };
+    // " after-failed-add": an earlier add of this session was (to be) rejected
+    let hist = |k: usize| if expect[..k.min(expect.len())].iter().any(|e| e.0 == "err") { " after-failed-add" } else { "" };
+
+    // probes from the oracle's view: everything that was accepted, at every path the property names
+    let mut probes: Vec<Probe> = vec![];
+    let reach = spec.reachable();
+    let mut expected_paths: BTreeMap<Vec<String>, Vec<String>> = BTreeMap::new();
+    for (q, target, _) in &reach {
+        expected_paths.insert(q.clone(), target.clone());
+    }
+    for (q, target, nested) in &reach {
+        let info = spec.items[target].clone();
+        if !matches!(info.kind, "fn" | "method" | "const" | "type") {
+            continue;
+        }
+        // shadowing: a path whose first segment is declared at the root is the declared item
+        probes.push(Probe { path: q.clone(), info: info.clone(), expect: Some(info.tag), nested_use: *nested, what: if q == target { "declared" } else { "use" } });
+    }
+    // not reachable at undeclared paths: bare name at the root, and under a sibling module
+    let mut negs = 0;
+    for (p, info) in &spec.items {
+        if negs >= 4 || !matches!(info.kind, "fn" | "const") || p.len() < 2 {
+            continue;
+        }
+        let bare = vec![p.last().unwrap().clone()];
+        if !expected_paths.contains_key(&bare) && !spec.items.contains_key(&bare) {
+            // on this tree a use inside a module puts the name at the root (known finding)
+            let nested = spec.uses.iter().any(|((s, b), (_, n))| *n && !s.is_empty() && b == &bare[0]);
+            probes.push(Probe { path: bare, info: info.clone(), expect: None, nested_use: nested, what: "bare-at-root" });
+            negs += 1;
+        }
+        let mut wrong = p.clone();
+        wrong.remove(p.len() - 2);
+        if !expected_paths.contains_key(&wrong) && !wrong.is_empty() && !spec.items.contains_key(&wrong) {
+            let nested = wrong.len() == 1 && spec.uses.iter().any(|((s, b), (_, n))| *n && !s.is_empty() && b == &wrong[0]);
+            probes.push(Probe { path: wrong, info: info.clone(), expect: None, nested_use: nested, what: "skipped-module" });
+            negs += 1;
+        }
+    }
+    // a use inside a module must not make the name visible at the root
+    for ((scope, bound), (target, nested)) in &spec.uses {
+        if *nested && !scope.is_empty() {
+            if let Some(info) = spec.items.get(target) {
+                let bare = vec![bound.clone()];
+                if matches!(info.kind, "fn" | "const") && !expected_paths.contains_key(&bare) {
+                    probes.push(Probe { path: bare, info: info.clone(), expect: None, nested_use: true, what: "nested-use-at-root" });
+                }
+            }
+        }
+    }
+    // nothing a rejected library offered is there (unless a later add declared that very path)
+    let mut vain = 0;
+    for (p, info) in &offered_in_vain {
+        if vain >= 8 || !matches!(info.kind, "fn" | "method" | "const" | "type") {
+            continue;
+        }
+        if expected_paths.contains_key(p) || spec.items.contains_key(p) || probes.iter().any(|q| &q.path == p) {
+            continue;
+        }
+        // a name that is not an identifier cannot be written in a script (`u64. f` parses as `u64.f`)
+        if p.iter().any(|seg| lex_code(seg) != 18) {
+            continue;
+        }
+        // a path below something a use inside a module put at the root (known finding) is not probed
+        if spec.uses.iter().any(|((s, b), (_, n))| *n && !s.is_empty() && b == &p[0]) {
+            continue;
+        }
+        // the probe expression needs the helpers of the markers it mentions
+        let needs: Option<usize> = match info.kind {
+            "const" => info.ty,
+            "type" => None,
+            _ => info.shape.marker(),
+        };
+        if let Some(m) = needs {
+            if !spec.types.contains_key(&m) {
+                continue;
+            }
+        }
+        probes.push(Probe { path: p.clone(), info: info.clone(), expect: None, nested_use: false, what: "failed-add" });
+        vain += 1;
+    }
     let queries: Vec<Vec<String>> = probes.iter().map(|p| p.path.clone()).collect();
-    let by_tag: BTreeMap<u64, ItemInfo> = spec.items.values().filter(|i| i.tag != 0).map(|i| (i.tag, i.clone())).collect();
+    let mut by_tag: BTreeMap<u64, ItemInfo> = spec.items.values().filter(|i| i.tag != 0).map(|i| (i.tag, i.clone())).collect();
+    for (_, i) in &offered_in_vain {
+        if i.tag != 0 {
+            by_tag.entry(i.tag).or_insert_with(|| i.clone());
+        }
+    }
     let markers: BTreeSet<usize> = spec.types.keys().cloned().collect();
 
     let mut first: Option<(Vec<&'static str>, Vec<Seen>)> = None;
@@ -1275,8 +1343,8 @@ fn check_session(rep: &mut Report, drv: &mut Driver, variants: &[Vec<Vec<It>>], 
     let mut sample = J::Null;
     for (vi, libs) in variants.iter().enumerate() {
         rep.evaluations += 1;
-        let (outs, rt) = run_impl(libs);
-        let (mouts, mres) = run_model(drv, "0000", libs, &queries);
+        let ImplRun { outs, rt, leftovers } = run_impl(libs);
+        let (mouts, mres) = run_model(drv, &model_cfg(), libs, &queries);
         // --- implementation vs model: outcomes (kind of error included)
         let show = |o: &[Outcome]| o.iter().map(|x| match x { Outcome::Panic(_) => "panic".to_string(), y => y.show() }).collect::<Vec<_>>().join(" ");
         if show(&outs) != show(&mouts) {
@@ -1285,14 +1353,14 @@ fn check_session(rep: &mut Report, drv: &mut Driver, variants: &[Vec<Vec<It>>], 
         // --- implementation vs oracle: outcomes
         let classes: Vec<&'static str> = outs.iter().map(|o| o.class()).collect();
         for (k, o) in outs.iter().enumerate() {
-            let want = expect.get(k).copied().unwrap_or("ok");
+            let (want, defects) = expect.get(k).cloned().unwrap_or(("ok", BTreeSet::new()));
             match (o, want) {
                 (Outcome::Panic(m), _) => {
-                    let key = format!("panic add{}", if suffix.is_empty() { format!(" {}", m.split(':').next().unwrap_or("")) } else { suffix.clone() });
-                    rep.violation(&format!("Runtime::add panicked: {m}"), &key, input(libs));
+                    let key = format!("panic add{}{}", if suffix.is_empty() { format!(" {}", m.split(':').next().unwrap_or("")) } else { suffix.clone() }, hist(k));
+                    viol(rep, &format!("Runtime::add panicked (add {k}): {m}"), &key, input(libs));
                 }
                 (Outcome::Ok, "err") => {
-                    let d = defects_seen.iter().next().cloned();
+                    let d = defects.iter().next().cloned();
                     let key = match d {
                         Some(Defect::InvalidName) => "accepted-invalid-name",
                         Some(Defect::NameTaken) => "accepted-taken-name",
@@ -1300,41 +1368,49 @@ fn check_session(rep: &mut Report, drv: &mut Driver, variants: &[Vec<Vec<It>>], 
                         Some(Defect::EmptyUsePath) => "accepted-empty-use-path",
                         _ => "accepted-unregistered-type",
                     };
-                    rep.violation(&format!("library with defect {:?} was accepted ({note})", defects_seen), &format!("{key}{suffix}"), input(libs));
+                    viol(rep, &format!("add {k}: library with defect {:?} was accepted ({note})", defects), &format!("{key}{suffix}{}", hist(k)), input(libs));
                 }
                 (Outcome::Err(kind), "ok") => {
-                    rep.violation(&format!("library without any of the four defects was rejected: {kind}"), &format!("rejected-valid {kind}{suffix}"), input(libs));
+                    viol(rep, &format!("add {k}: library without any of the four defects was rejected: {kind}"), &format!("rejected-valid {kind}{suffix}{}", hist(k)), input(libs));
                 }
                 _ => {}
             }
         }
+        // --- a rejected add leaves the runtime as it was (what the public getters show)
+        for (k, what) in &leftovers {
+            viol(rep, &format!("add {k} was rejected ({}) but changed the runtime: {what}", outs[*k].show()), &format!("state-after-failed-add getters {}", outs[*k].show()), input(libs));
+        }
         // --- reachability
         let mut seen: Vec<Seen> = vec![];
         if let Some(mut rt) = rt {
-            if all_ok_expected {
-                let h = catch_unwind(AssertUnwindSafe(|| rt.add(helpers(&markers))));
-                if !matches!(h, Ok(Ok(()))) {
-                    rep.mismatch("helper functions could not be registered", input(libs));
-                } else {
-                    seen = run_probes(&rt, &probes);
-                    for ((pr, s), m) in probes.iter().zip(&seen).zip(&mres) {
-                        let ms = model_seen(m, pr, &by_tag);
-                        if *s != ms {
-                            rep.mismatch(&format!("path {} ({}): implementation {:?}, model {:?} ({m})", pr.path.join("."), pr.what, s, ms), input(libs));
-                        }
-                        let nest = if pr.nested_use { " use-in-module" } else { "" };
-                        match (pr.expect, s) {
-                            (_, Seen::Panic) => rep.violation(&format!("compiler panicked on a script using {}", pr.path.join(".")), &format!("panic compile{nest}"), input(libs)),
-                            (Some(t), Seen::Tag(x)) if *x == t => {}
-                            (Some(_), Seen::TypeOk) => {}
-                            (Some(t), other) => rep.violation(
-                                &format!("item with tag {t} ({}) not usable at its {} path {}: {:?}", pr.info.kind, pr.what, pr.path.join("."), other),
-                                &format!("unreachable-at-declared-path {}{nest}{}", pr.what, if nest.is_empty() && pr.what == "use" && sit == "use-path-3plus" { " use-path-3plus" } else { "" }), input(libs)),
-                            (None, Seen::No) => {}
-                            (None, other) => rep.violation(
-                                &format!("item is usable at the undeclared path {} ({}): {:?}", pr.path.join("."), pr.what, other),
-                                &format!("reachable-at-wrong-path {}{nest}", pr.what), input(libs)),
-                        }
+            let h = catch_unwind(AssertUnwindSafe(|| rt.add(helpers(&markers))));
+            if !matches!(h, Ok(Ok(()))) {
+                // the helpers mention registered types only and use reserved names
+                viol(rep, "the helper functions over the registered types were rejected", &format!("rejected-valid helpers{}", hist(libs.len())), input(libs));
+            } else {
+                seen = run_probes(&rt, &probes);
+                for ((pr, s), m) in probes.iter().zip(&seen).zip(&mres) {
+                    let ms = model_seen(m, pr, &by_tag);
+                    if *s != ms {
+                        rep.mismatch(&format!("path {} ({}): implementation {:?}, model {:?} ({m})", pr.path.join("."), pr.what, s, ms), input(libs));
+                    }
+                    let nest = if pr.nested_use { " use-in-module" } else { "" };
+                    // (the open finding about a use inside a module keeps its keys whatever the history)
+                    let hist = |k: usize| if pr.nested_use { "" } else { hist(k) };
+                    match (pr.expect, s) {
+                        (_, Seen::Panic) => viol(rep, &format!("compiler panicked on a script using {}", pr.path.join(".")), &format!("panic compile{nest}{}", hist(libs.len())), input(libs)),
+                        (Some(t), Seen::Tag(x)) if *x == t => {}
+                        (Some(_), Seen::TypeOk) => {}
+                        (Some(t), other) => viol(rep, 
+                            &format!("item with tag {t} ({}) not usable at its {} path {}: {:?}", pr.info.kind, pr.what, pr.path.join("."), other),
+                            &format!("unreachable-at-declared-path {}{nest}{}{}", pr.what, if nest.is_empty() && pr.what == "use" && sit == "use-path-3plus" { " use-path-3plus" } else { "" }, hist(libs.len())), input(libs)),
+                        (None, Seen::No) => {}
+                        (None, other) if pr.what == "failed-add" => viol(rep, 
+                            &format!("{} of a REJECTED library is usable from a script at {}: {:?}", pr.info.kind, pr.path.join("."), other),
+                            &format!("state-after-failed-add reachable {}", pr.info.kind), input(libs)),
+                        (None, other) => viol(rep, 
+                            &format!("item is usable at the undeclared path {} ({}): {:?}", pr.path.join("."), pr.what, other),
+                            &format!("reachable-at-wrong-path {}{nest}{}", pr.what, hist(libs.len())), input(libs)),
                     }
                 }
             }
@@ -1344,9 +1420,9 @@ fn check_session(rep: &mut Report, drv: &mut Driver, variants: &[Vec<Vec<It>>], 
             None => first = Some((classes.clone(), seen.clone())),
             Some((c0, s0)) => {
                 if *c0 != classes || (*s0 != seen && !s0.is_empty() && !seen.is_empty()) {
-                    rep.violation(
+                    viol(rep, 
                         &format!("reordering the items changes the result: {:?} vs {:?}", c0, classes),
-                        &format!("order-dependent{suffix}"),
+                        &format!("order-dependent{suffix}{}", hist(libs.len())),
                         json!({"libs": libs_json(libs), "first_order": libs_json(&variants[0]), "note": note, "index": index}),
                     );
                 }
@@ -1354,23 +1430,64 @@ fn check_session(rep: &mut Report, drv: &mut Driver, variants: &[Vec<Vec<It>>], 
         }
         if vi == 0 {
             let d: Vec<String> = defects_seen.iter().map(|d| format!("{d:?}")).collect();
+            // the history shape: what came after a rejected add (r = rejected, a = accepted; runs collapsed)
+            let mut shape = String::new();
+            for c in &classes {
+                let ch = match *c { "ok" => 'a', "err" => 'r', _ => 'p' };
+                if !shape.ends_with(ch) {
+                    shape.push(ch);
+                }
+            }
             class = format!(
                 "adds={} depth={} defect={} out={} uses={} probes={}",
-                libs.len(), libs.iter().map(|l| depth_of(l)).max().unwrap_or(0),
+                libs.len().min(4), libs.iter().map(|l| depth_of(l)).max().unwrap_or(0),
                 if d.is_empty() { "none".to_string() } else { d.join("+") },
-                classes.join(","), libs.iter().map(|l| max_use_len(l)).max().unwrap_or(0),
+                shape, libs.iter().map(|l| max_use_len(l)).max().unwrap_or(0),
                 probes.len().min(9),
             );
             sample = json!({"libs": libs_json(libs), "outcomes": outs.iter().map(|o| o.show()).collect::<Vec<_>>(),
                 "model": mouts.iter().map(|o| o.show()).collect::<Vec<_>>(), "probes": probes.iter().zip(&seen).map(|(p, s)| format!("{} -> {:?}", p.path.join("."), s)).collect::<Vec<_>>(), "note": note});
             rep.hist("outcome", classes.last().copied().unwrap_or("ok"));
+            rep.hist("history", shape);
             rep.hist("adds", libs.len().to_string());
             rep.hist("items", (libs.iter().map(|l| count_items(l)).sum::<usize>().min(30) / 3 * 3).to_string());
             rep.hist("depth", libs.iter().map(|l| depth_of(l)).max().unwrap_or(0).to_string());
             rep.hist("probes", probes.len().min(40).to_string());
+            rep.hist("probes of rejected items", probes.iter().filter(|p| p.what == "failed-add").count().to_string());
         }
     }
     SessionResult { class, sample }
+}
+
+/// the model's configuration: `Cfg.fixed`; a sixth bit `1` = the passes run in
+/// place on the runtime (`C18_INPLACE=1`: the tree before the repair that made
+/// `Rt::add` all-or-nothing — for checking the in-place model against that tree)
+fn model_cfg() -> String {
+    if std::env::var("C18_INPLACE").map(|v| v == "1").unwrap_or(false) { "000001".into() } else { "0000".into() }
+}
+
+/// `use` of an item that does not exist is outside the statement. A history in which an add is rejected may
+/// leave a later library with a `use` of something only the rejected library offered: those paths are dropped
+/// (from the libraries as generated, before any reordering), judged by the runtime the ORACLE says there is.
+fn sanitize(libs: &mut Vec<Vec<It>>) {
+    fn fix(items: &mut Vec<It>, next: &Spec) {
+        for it in items.iter_mut() {
+            match it {
+                It::Module { ch, .. } => fix(ch, next),
+                It::Use { paths } => paths.retain(|p| p.is_empty() || next.items.contains_key(p)),
+                _ => {}
+            }
+        }
+    }
+    let mut spec = Spec::new();
+    for lib in libs.iter_mut() {
+        let (_, next) = spec.check(lib);
+        fix(lib, &next);
+        let (d, next) = spec.check(lib);
+        if d.is_empty() {
+            spec = next;
+        }
+    }
 }
 
 fn permutations<T: Clone>(v: &[T]) -> Vec<Vec<T>> {
@@ -1392,7 +1509,7 @@ fn permutations<T: Clone>(v: &[T]) -> Vec<Vec<T>> {
 /// one generated case: a session, possibly with one injected defect, and its reorderings
 fn gen_case(seed: u64, index: u64) -> (Vec<Vec<Vec<It>>>, String) {
     let mut rng = Prng::for_case(seed, index);
-    let n_adds = 1 + rng.below(3) as usize;
+    let n_adds = 1 + rng.below(4) as usize;
     let small = index % 3 == 0;
     let nested_use = index % 11 == 5;
     let mut g = Gen { rng: &mut rng, tag: 0, used: BTreeMap::new(), types: BTreeMap::new(), targets: vec![], members: BTreeMap::new() };
@@ -1404,32 +1521,69 @@ fn gen_case(seed: u64, index: u64) -> (Vec<Vec<Vec<It>>>, String) {
     let mut tag = 5000 + g.tag;
     drop(g);
     let mut note = "well-formed".to_string();
-    // one injected defect of each kind in turn, at every position in turn
+    // one injected defect of each kind in turn, at every position in turn (mode 5: two defects, in two libraries);
+    // the history goes on after the rejected add, and the library is offered again without the defect
     let mode = index % 9;
-    if mode > 0 && mode < 5 {
-        let kind = [Defect::InvalidName, Defect::NameTaken, Defect::TypeTwice, Defect::Unregistered][(mode - 1) as usize].clone();
-        let li = rng.below(libs.len() as u64) as usize;
-        let mut spec = Spec::new();
-        for l in &libs[..li] {
-            spec = spec.check(l).1;
+    if mode > 0 && mode < 6 {
+        let clean = libs.clone();
+        let n_inj = if mode == 5 { 2 } else { 1 };
+        let mut injected: Vec<usize> = vec![];
+        for round in 0..n_inj {
+            let kind = if mode == 5 {
+                [Defect::InvalidName, Defect::NameTaken, Defect::TypeTwice, Defect::Unregistered][rng.below(4) as usize].clone()
+            } else {
+                [Defect::InvalidName, Defect::NameTaken, Defect::TypeTwice, Defect::Unregistered][(mode - 1) as usize].clone()
+            };
+            let li = rng.below(clean.len() as u64) as usize;
+            if injected.contains(&li) {
+                continue;
+            }
+            // the state the oracle says this library is added to (rejected libraries leave nothing)
+            let mut spec = Spec::new();
+            for l in &libs[..li] {
+                let (d, next) = spec.check(l);
+                if d.is_empty() {
+                    spec = next;
+                }
+            }
+            let mut pos = vec![];
+            positions(&libs[li], &mut vec![], &mut pos);
+            if !pos.is_empty() {
+                // "every position": the position is index-driven, so successive cases sweep the tree
+                let start = (index / 9) as usize % pos.len();
+                for k in 0..pos.len() {
+                    let p = &pos[(start + k) % pos.len()];
+                    tag += 1;
+                    let mut l = libs[li].clone();
+                    if let Some(what) = inject(&mut l, p, &kind, &spec, &mut rng, tag) {
+                        libs[li] = l;
+                        let n = format!("injected {what} in add {li} at {:?}", p);
+                        note = if round == 0 { n } else { format!("{note}; {n}") };
+                        injected.push(li);
+                        break;
+                    }
+                }
+            }
         }
-        let mut pos = vec![];
-        positions(&libs[li], &mut vec![], &mut pos);
-        if !pos.is_empty() {
-            // "every position": the position is index-driven, so successive cases sweep the tree
-            let start = (index / 9) as usize % pos.len();
-            for k in 0..pos.len() {
-                let p = &pos[(start + k) % pos.len()];
-                tag += 1;
-                let mut l = libs[li].clone();
-                if let Some(what) = inject(&mut l, p, &kind, &spec, &mut rng, tag) {
-                    libs[li] = l;
-                    note = format!("injected {what} in add {li} at {:?}", p);
-                    break;
+        // the rejected library again, as it was meant: straight after it, or at the end of the history
+        injected.sort();
+        let mut shift = 0;
+        for li in injected {
+            match rng.below(3) {
+                0 => {}
+                1 => {
+                    libs.insert(li + shift + 1, clean[li].clone());
+                    shift += 1;
+                    note = format!("{note}; add {li} again without the defect, straight away");
+                }
+                _ => {
+                    libs.push(clean[li].clone());
+                    note = format!("{note}; add {li} again without the defect, at the end");
                 }
             }
         }
     }
+    sanitize(&mut libs);
     // reorderings
     let mut variants = vec![libs.clone()];
     let total: usize = libs.iter().map(|l| count_items(l)).sum();
@@ -1471,7 +1625,13 @@ fn usei(p: &[&[&str]]) -> It {
 }
 
 /// boundary table: the witnesses of the known defects and a few hand-made shapes
-fn fixed_cases() -> Vec<(Vec<Vec<It>>, &'static str)> {
+fn fixed_cases() -> Vec<(Vec<Vec<It>>, String)> {
+    let mut v: Vec<(Vec<Vec<It>>, String)> = boundary_cases().into_iter().map(|(l, n)| (l, n.to_string())).collect();
+    v.extend(history_cases());
+    v
+}
+
+fn boundary_cases() -> Vec<(Vec<Vec<It>>, &'static str)> {
     let t = |n: &str, m: usize| It::Type { name: s(n), m };
     vec![
         (vec![vec![module("a", vec![module("b", vec![f("c", 7)])]), usei(&[&["a", "b", "c"]])]], "witness: use a::b::c"),
@@ -1507,6 +1667,124 @@ fn fixed_cases() -> Vec<(Vec<Vec<It>>, &'static str)> {
             It::Fn { name: s("mr"), shape: Shape::S7(1), tag: 26 }, It::Fn { name: s("ml"), shape: Shape::S8(1), tag: 27 }] }]], "composite signatures on methods of a type in a module, impl at the root"),
         (vec![vec![It::Fn { name: s("fv"), shape: Shape::S6(2), tag: 28 }]], "composite signature mentioning an unregistered type"),
     ]
+}
+
+
+// ------------------------------------------------------------------ histories with rejected adds
+
+/// Class representatives of HISTORIES on one runtime in which an add is
+/// rejected and the host goes on: failure kind x kind of the failing item x
+/// what is added next, then the rejected library again with the one defect
+/// repaired, then a library that uses everything. The rejected library carries
+/// bystanders of every item kind (a module with members, a type, a function and
+/// a constant over that type, an impl block, a use), none of them defective, so
+/// that whatever an add inserts before it gives up is visible afterwards: the
+/// retry names them all again.
+fn history_cases() -> Vec<(Vec<Vec<It>>, String)> {
+    let t = |n: &str, m: usize| It::Type { name: s(n), m };
+    let k = |n: &str, ty: TyRef, tag: u64| It::Const { name: s(n), ty, tag };
+    let fs = |n: &str, shape: Shape, tag: u64| It::Fn { name: s(n), shape, tag };
+    // what exists before: names to clash with, a registered type (M7) with members
+    let pre = vec![
+        f("pre_f", 201),
+        module("pre_m", vec![f("x", 202)]),
+        t("PT", 7),
+        It::Impl { ty: Some(7), ch: vec![f("pre_sm", 203), k("PIK", None, 204)] },
+        k("PRE_K", None, 205),
+        module("pre_u", vec![f("pu", 206)]),
+        usei(&[&["pre_u", "pu"]]),
+    ];
+    let bystanders = || vec![
+        module("bm", vec![f("bmf", 301), k("BMK", None, 302), module("bmm", vec![f("deep", 307)])]),
+        t("BT", 4),
+        fs("bf", Shape::S1(4), 303),
+        k("BK", Some(4), 304),
+        It::Impl { ty: Some(4), ch: vec![f("bsm", 305), k("BIK", None, 306)] },
+        usei(&[&["bm", "bmf"]]),
+    ];
+    // (what fails, the defective items, the same items with the defect repaired)
+    let m7 = |ch: Vec<It>| It::Impl { ty: Some(7), ch };
+    let subjects: Vec<(&str, Vec<It>, Vec<It>)> = vec![
+        // ---- a name already taken
+        ("taken: type named like a primitive (String)", vec![t("String", 0)], vec![t("Subj", 0)]),
+        ("taken: type named like a primitive (bool)", vec![t("bool", 0)], vec![t("Subj", 0)]),
+        ("taken: type named like a function of an earlier add", vec![t("pre_f", 0)], vec![t("Subj", 0)]),
+        ("taken: type named like a module of an earlier add", vec![t("pre_m", 0)], vec![t("Subj", 0)]),
+        ("taken: type named like a type of an earlier add", vec![t("PT", 0)], vec![t("Subj", 0)]),
+        ("taken: type in a module named like a primitive of the root", vec![module("sm", vec![t("u32", 0), t("u32", 1)])], vec![module("sm", vec![t("u32", 0), t("Other", 1)])]),
+        ("taken: function named like a function of an earlier add", vec![f("pre_f", 401)], vec![f("subj_f", 401)]),
+        ("taken: function named like a type of an earlier add", vec![f("PT", 401)], vec![f("subj_f", 401)]),
+        ("taken: two functions of one name", vec![f("twice", 401), f("twice", 402)], vec![f("twice", 401), f("twice2", 402)]),
+        ("taken: constant named like a constant of an earlier add", vec![k("PRE_K", None, 401)], vec![k("SUBJ_K", None, 401)]),
+        ("taken: constant named like a function of the same library", vec![k("bf", None, 401)], vec![k("SUBJ_K", None, 401)]),
+        ("taken: module named like a function of an earlier add", vec![module("pre_f", vec![f("y", 401)])], vec![module("subj_m", vec![f("y", 401)])]),
+        ("taken: module declared again", vec![module("pre_m", vec![f("y", 401)])], vec![module("subj_m", vec![f("y", 401)])]),
+        ("taken: nested module next to a function of its name", vec![module("o", vec![f("i", 401), module("i", vec![f("y", 402)])])], vec![module("o", vec![f("i", 401), module("i2", vec![f("y", 402)])])]),
+        ("taken: method named like a method of an earlier add", vec![m7(vec![f("pre_sm", 401)])], vec![m7(vec![f("subj_sm", 401)])]),
+        ("taken: constant of an impl block named like a method of an earlier add", vec![m7(vec![k("pre_sm", None, 401)])], vec![m7(vec![k("SUBJ_IK", None, 401)])]),
+        ("taken: use binds a name a use of an earlier add bound", vec![module("su", vec![f("pu", 401)]), usei(&[&["su", "pu"]])], vec![module("su", vec![f("pu2", 401)]), usei(&[&["su", "pu2"]])]),
+        ("taken: one use binds a name twice", vec![module("su", vec![f("bmf", 401)]), usei(&[&["su", "bmf"]])], vec![module("su", vec![f("bmf2", 401)]), usei(&[&["su", "bmf2"]])]),
+        // ---- a Rust type registered twice
+        ("type twice: the type of an earlier add", vec![t("Again", 7)], vec![t("Subj", 0)]),
+        ("type twice: within the library", vec![t("One", 0), module("sm", vec![t("Two", 0)])], vec![t("One", 0), module("sm", vec![t("Two", 1)])]),
+        ("type twice: a bystander's type", vec![module("sm", vec![t("Again", 4)])], vec![module("sm", vec![t("Subj", 0)])]),
+        // ---- an unregistered type mentioned
+        ("unregistered: function parameter", vec![fs("subj_f", Shape::S1(1), 401)], vec![t("S1T", 1), fs("subj_f", Shape::S1(1), 401)]),
+        ("unregistered: function result", vec![fs("subj_f", Shape::S3(1), 401)], vec![t("S1T", 1), fs("subj_f", Shape::S3(1), 401)]),
+        ("unregistered: inside Option / Verdict / List", vec![fs("so", Shape::S2(1), 401), fs("sv", Shape::S6(1), 402), fs("sl", Shape::S8(1), 403)], vec![t("S1T", 1), fs("so", Shape::S2(1), 401), fs("sv", Shape::S6(1), 402), fs("sl", Shape::S8(1), 403)]),
+        ("unregistered: function in a nested module", vec![module("o", vec![module("i", vec![fs("subj_f", Shape::S4(1), 401)])])], vec![t("S1T", 1), module("o", vec![module("i", vec![fs("subj_f", Shape::S4(1), 401)])])]),
+        ("unregistered: constant", vec![k("SUBJ_K", Some(1), 401)], vec![t("S1T", 1), k("SUBJ_K", Some(1), 401)]),
+        ("unregistered: impl block", vec![It::Impl { ty: Some(1), ch: vec![f("subj_sm", 401)] }], vec![t("S1T", 1), It::Impl { ty: Some(1), ch: vec![f("subj_sm", 401)] }]),
+        ("unregistered: method signature", vec![m7(vec![fs("subj_sm", Shape::S1(1), 401)])], vec![t("S1T", 1), m7(vec![fs("subj_sm", Shape::S1(1), 401)])]),
+        ("unregistered: constant of an impl block", vec![m7(vec![k("SUBJ_IK", Some(1), 401)])], vec![t("S1T", 1), m7(vec![k("SUBJ_IK", Some(1), 401)])]),
+        // ---- a name that is not an identifier (the item constructor rejects it: the library never reaches the runtime)
+        ("invalid name: function", vec![f("a b", 401)], vec![f("a_b", 401)]),
+        ("invalid name: keyword as a module name", vec![module("filter", vec![f("y", 401)])], vec![module("filter_", vec![f("y", 401)])]),
+        ("invalid name: type", vec![t("1x", 0)], vec![t("x1", 0)]),
+        ("invalid name: constant of an impl block", vec![m7(vec![k("true", None, 401)])], vec![m7(vec![k("true_", None, 401)])]),
+        // ---- not one of the four, an error all the same
+        ("empty use path", vec![usei(&[&[]])], vec![]),
+    ];
+    // what is added between the rejected add and the retry
+    //  A: another type with items over it (takes the place the rejected type would have had)
+    let next_a = vec![t("NT", 6), fs("nf", Shape::S1(6), 501), k("NK", Some(6), 502), It::Impl { ty: Some(6), ch: vec![f("nsm", 503), fs("nme", Shape::S4(6), 504)] }, fs("nmk", Shape::S3(6), 505)];
+    //  B: one library each that mentions a type only the rejected library offered (bystander M4, subject M0): a
+    //     signature, a constant, an impl block — every one must be rejected in turn
+    let next_b: Vec<Vec<It>> = vec![
+        vec![fs("mb", Shape::S1(4), 511)],
+        vec![fs("ms", Shape::S2(0), 512)],
+        vec![k("MK", Some(0), 513)],
+        vec![It::Impl { ty: Some(0), ch: vec![f("msm", 514)] }],
+        vec![module("mm", vec![k("MMK", Some(4), 515)])],
+    ];
+    // afterwards: a library that uses what the retry registered
+    let last = vec![fs("lf", Shape::S4(4), 521), It::Impl { ty: Some(4), ch: vec![fs("lme", Shape::S1(4), 522)] }, usei(&[&["bm", "bmm", "deep"]]), fs("l6", Shape::S2(6), 523), t("LT", 6)];
+    let mut out = vec![];
+    // the rejected library alone (no bystanders): the shape of a host that registers one item at a time
+    out.push((vec![vec![t("String", 0)], vec![t("Seconds", 1), fs("seconds", Shape::S3(1), 601)], vec![fs("to_u64", Shape::S1(0), 602)]], s("history: one type rejected for its name, another registered, the first mentioned")));
+    out.push((vec![vec![t("bool", 0)], vec![t("Seconds", 1)], vec![t("Meters", 0), fs("meters", Shape::S3(0), 603), fs("value", Shape::S1(0), 604)]], s("history: one type rejected for its name, another registered, the first again under a free name")));
+    out.push((vec![vec![fs("g", Shape::S1(2), 605)], vec![t("G", 2)], vec![fs("g", Shape::S1(2), 605)]], s("history: a function rejected for its type, the type registered, the function again")));
+    out.push((vec![vec![f("u64", 606)], vec![f("u64_", 606)], vec![f("u64", 607)]], s("history: a function named like a primitive, twice")));
+    out.push((vec![vec![t("A", 0), t("B", 0)], vec![t("A", 0)], vec![t("B", 1), fs("ab", Shape::S4(0), 608)]], s("history: type twice within a library, then one by one")));
+    for (what, bad, good) in subjects {
+        let mut failing = bystanders();
+        failing.extend(bad.clone());
+        let mut retry = bystanders();
+        retry.extend(good.clone());
+        // M6 is registered by `next_a` or, where that is not part of the history, by `last` (its type item LT)
+        let last_without_lt: Vec<It> = last.iter().filter(|i| !matches!(i, It::Type { .. })).cloned().collect();
+        // 1: rejected, straight away again
+        out.push((vec![pre.clone(), failing.clone(), retry.clone(), last.clone()], format!("history: {what}; retry")));
+        // 2: rejected, another type is registered, again
+        out.push((vec![pre.clone(), failing.clone(), next_a.clone(), retry.clone(), last_without_lt.clone()], format!("history: {what}; another type; retry")));
+        // 3: rejected, another type, libraries that mention what the rejected one offered, again
+        let mut h = vec![pre.clone(), failing.clone(), next_a.clone()];
+        h.extend(next_b.iter().cloned());
+        h.push(retry.clone());
+        h.push(last_without_lt.clone());
+        out.push((h, format!("history: {what}; another type; its types mentioned; retry")));
+    }
+    out
 }
 
 // ------------------------------------------------------------------ use trees (`library!`)
@@ -1681,6 +1959,164 @@ struct MacroCase {
     note: String,
     /// text of the `use` declarations handed to the macro, in order (for the fixtures built around them)
     uses: Option<&'static str>,
+    /// text of the whole library as handed to the macro (`stringify!` of the very tokens): the names it
+    /// declares, in order, are read from it and must be the names of `tree` (name fixtures)
+    text: Option<&'static str>,
+    /// the library declares an item with a RAW identifier (`r#loop`): either building it fails (the name as
+    /// written, `r#loop`, is not a Roto identifier) or the item is registered under the identifier without
+    /// the prefix (`tree` carries that name) — nothing else
+    raw: bool,
+}
+
+/// a library written with unusual but valid identifiers, and its text
+macro_rules! name_fixture {
+    ($($t:tt)*) => {
+        (Box::new(|| library! { $($t)* }) as Box<dyn Fn() -> roto::Library>, stringify!($($t)*))
+    };
+}
+
+/// the names a library text declares, in order: the identifier after `mod` / `fn` / `const` / `type` / `let`
+/// (a raw identifier is read with its `r#`)
+fn declared_names(text: &str) -> Vec<String> {
+    let t = use_tokens(text);
+    let mut out = vec![];
+    let mut i = 0;
+    while i < t.len() {
+        if matches!(t[i].as_str(), "mod" | "fn" | "const" | "type" | "let") && i + 1 < t.len() {
+            if t[i + 1] == "r" && t.get(i + 2).map(|x| x == "#").unwrap_or(false) && i + 3 < t.len() {
+                out.push(format!("r#{}", t[i + 3]));
+                i += 4;
+                continue;
+            }
+            out.push(t[i + 1].clone());
+            i += 2;
+            continue;
+        }
+        i += 1;
+    }
+    out
+}
+/// shape of a name: where its underscores are, whether it has digits / non-ASCII letters / a raw prefix
+fn name_shape(n: &str) -> String {
+    let (raw, n) = match n.strip_prefix("r#") { Some(x) => (true, x), None => (false, n) };
+    let lead = n.chars().take_while(|c| *c == '_').count();
+    let trail = n.chars().rev().take_while(|c| *c == '_').count();
+    format!(
+        "{}lead{} trail{}{}{}{}",
+        if raw { "raw " } else { "" }, lead.min(2), trail.min(2),
+        if n.trim_matches('_').contains("__") { " double" } else { "" },
+        if n.chars().any(|c| c.is_ascii_digit()) { " digit" } else { "" },
+        if !n.is_ascii() { " non-ascii" } else { "" },
+    )
+}
+/// the names of an item tree in document order
+fn tree_names(items: &[It], out: &mut Vec<String>) {
+    for it in items {
+        match it {
+            It::Module { name, ch } => {
+                out.push(name.clone());
+                tree_names(ch, out);
+            }
+            It::Type { name, .. } | It::Fn { name, .. } | It::Const { name, .. } => out.push(name.clone()),
+            It::Impl { ch, .. } => tree_names(ch, out),
+            It::Use { .. } => {}
+        }
+    }
+}
+
+/// `library!`-built libraries whose items have unusual but valid names: trailing underscores (one, two),
+/// a leading underscore, double underscores inside, digits, non-ASCII letters, the same spelling with and
+/// without a trailing underscore side by side in one scope (`step` / `step_` / `step__`, `units` / `units_`,
+/// `K` / `K_`, `me` / `me_`, `closure` / `closure_`) for every item kind (module, function, `let` closure,
+/// constant, type, method, constant of an impl block), and `use` paths through and to such names; then raw
+/// identifiers (a Rust keyword that is a fine Roto name, a plain identifier written raw).
+fn name_fixtures() -> Vec<MacroCase> {
+    let k = |n: &str, tag: u64| It::Const { name: s(n), ty: None, tag };
+    let mut v = vec![];
+    let (mk, text) = name_fixture! {
+        mod units_ {
+            const LIMIT_: u64 = 931;
+            fn clamp_() -> u64 { 932 }
+            fn clamp() -> u64 { 933 }
+            mod _inner {
+                fn __x__() -> u64 { 934 }
+                fn x() -> u64 { 947 }
+            }
+            mod _inner_ {
+                fn __x__() -> u64 { 948 }
+            }
+        }
+        mod units {
+            fn clamp_() -> u64 { 949 }
+        }
+        fn step() -> u64 { 935 }
+        fn step_() -> u64 { 936 }
+        fn step__() -> u64 { 937 }
+        fn _lead() -> u64 { 938 }
+        fn a__b() -> u64 { 939 }
+        fn x1_2() -> u64 { 940 }
+        fn été() -> u64 { 941 }
+        fn été_() -> u64 { 950 }
+        const K_: u64 = 942;
+        const K: u64 = 951;
+        #[clone] type T_ = Val<M<3>>;
+        impl Val<M<3>> {
+            fn me_(_v: Val<M<3>>) -> u64 { 943 }
+            fn me(_v: Val<M<3>>) -> u64 { 944 }
+            const IK_: u64 = 945;
+        }
+        let closure_ = || -> u64 { 946 };
+        let closure = || -> u64 { 952 };
+        use units_::clamp_;
+        use units_::{_inner::__x__, LIMIT_};
+    };
+    let tree = vec![
+        module("units_", vec![
+            k("LIMIT_", 931), f("clamp_", 932), f("clamp", 933),
+            module("_inner", vec![f("__x__", 934), f("x", 947)]),
+            module("_inner_", vec![f("__x__", 948)]),
+        ]),
+        module("units", vec![f("clamp_", 949)]),
+        f("step", 935), f("step_", 936), f("step__", 937), f("_lead", 938), f("a__b", 939), f("x1_2", 940),
+        f("\u{e9}t\u{e9}", 941), f("\u{e9}t\u{e9}_", 950),
+        k("K_", 942), k("K", 951),
+        It::Type { name: s("T_"), m: 3 },
+        It::Impl { ty: Some(3), ch: vec![It::Fn { name: s("me_"), shape: Shape::S1(3), tag: 943 }, It::Fn { name: s("me"), shape: Shape::S1(3), tag: 944 }, k("IK_", 945)] },
+        f("closure_", 946), f("closure", 952),
+        usei(&[&["units_", "clamp_"]]),
+        usei(&[&["units_", "_inner", "__x__"], &["units_", "LIMIT_"]]),
+    ];
+    v.push(MacroCase { mk, tree, note: s("library! names: underscores, digits, non-ASCII, side by side"), uses: None, text: Some(text), raw: false });
+    // a type and a module whose names differ in a trailing underscore only, the type's members through an impl block
+    let (mk, text) = name_fixture! {
+        mod shape_ {
+            #[clone] type Shape_ = Val<M<4>>;
+            fn new_() -> Val<M<4>> { Val(M::<4>(953)) }
+        }
+        mod shape {
+            fn area_(_s: Val<M<4>>) -> u64 { 954 }
+        }
+        impl Val<M<4>> {
+            fn area__(_s: Val<M<4>>) -> u64 { 955 }
+            fn area_(_s: Val<M<4>>) -> u64 { 956 }
+        }
+        use shape_::Shape_;
+    };
+    let tree = vec![
+        module("shape_", vec![It::Type { name: s("Shape_"), m: 4 }, It::Fn { name: s("new_"), shape: Shape::S3(4), tag: 953 }]),
+        module("shape", vec![It::Fn { name: s("area_"), shape: Shape::S1(4), tag: 954 }]),
+        It::Impl { ty: Some(4), ch: vec![It::Fn { name: s("area__"), shape: Shape::S1(4), tag: 955 }, It::Fn { name: s("area_"), shape: Shape::S1(4), tag: 956 }] },
+        usei(&[&["shape_", "Shape_"]]),
+    ];
+    v.push(MacroCase { mk, tree, note: s("library! names: type and modules with trailing underscores"), uses: None, text: Some(text), raw: false });
+    // raw identifiers, one library each
+    let (mk, text) = name_fixture! { fn r#loop() -> u64 { 961 } };
+    v.push(MacroCase { mk, tree: vec![f("loop", 961)], note: s("library! names: raw identifier of a Rust keyword (fn r#loop)"), uses: None, text: Some(text), raw: true });
+    let (mk, text) = name_fixture! { fn r#plain() -> u64 { 962 } fn plain_() -> u64 { 964 } };
+    v.push(MacroCase { mk, tree: vec![f("plain", 962), f("plain_", 964)], note: s("library! names: raw identifier of a plain name (fn r#plain)"), uses: None, text: Some(text), raw: true });
+    let (mk, text) = name_fixture! { mod r#type { fn get() -> u64 { 963 } } };
+    v.push(MacroCase { mk, tree: vec![module("type", vec![f("get", 963)])], note: s("library! names: raw identifier as a module name (mod r#type)"), uses: None, text: Some(text), raw: true });
+    v
 }
 
 /// The module tree every use-tree fixture imports from. The same name `x`
@@ -1866,9 +2302,9 @@ fn macro_case_list() -> Vec<MacroCase> {
     };
     let tree3 = vec![It::Const { name: s("V"), ty: Some(1), tag: 921 }, module("n", vec![It::Type { name: s("U"), m: 1 }])];
     let mut cases = vec![
-        MacroCase { mk: Box::new(lib1), tree: tree1, note: s("library! shape 1"), uses: None },
-        MacroCase { mk: Box::new(lib2), tree: tree2, note: s("library! shape 2"), uses: None },
-        MacroCase { mk: Box::new(lib3), tree: tree3, note: s("library! shape 3"), uses: None },
+        MacroCase { mk: Box::new(lib1), tree: tree1, note: s("library! shape 1"), uses: None, text: None, raw: false },
+        MacroCase { mk: Box::new(lib2), tree: tree2, note: s("library! shape 2"), uses: None, text: None, raw: false },
+        MacroCase { mk: Box::new(lib3), tree: tree3, note: s("library! shape 3"), uses: None, text: None, raw: false },
     ];
     for (mk, text) in use_fixtures() {
         let mut tree = use_fixture_tree();
@@ -1877,8 +2313,9 @@ fn macro_case_list() -> Vec<MacroCase> {
             tree.push(It::Use { paths });
         }
         let text1 = use_tokens(text).join(" ").replace(" :: ", "::").replace(" ,", ",").replace(" ;", ";");
-        cases.push(MacroCase { mk, tree, note: format!("library! {text1}"), uses: Some(text) });
+        cases.push(MacroCase { mk, tree, note: format!("library! {text1}"), uses: Some(text), text: None, raw: false });
     }
+    cases.extend(name_fixtures());
     cases
 }
 
@@ -1939,7 +2376,7 @@ fn type_labels() -> Vec<(std::any::TypeId, String)> {
 /// say the declaration names, and registering the expansion must make every
 /// item usable from a script at every path (declared and imported).
 fn macro_cases(rep: &mut Report, drv: &mut Driver, only: Option<&str>) {
-    for MacroCase { mk, tree, note, uses } in macro_case_list() {
+    for MacroCase { mk, tree, note, uses, text, raw } in macro_case_list() {
         if let Some(o) = only {
             if o != note {
                 continue;
@@ -1957,10 +2394,31 @@ fn macro_cases(rep: &mut Report, drv: &mut Driver, only: Option<&str>) {
             let dump = roto::verif_hooks::c18::dump_library(&lib, &type_labels());
             (lib, dump)
         }));
+        // the names the text declares are the names of the tree (the oracle reads the declaration, not a copy of it)
+        if let Some(text) = text {
+            let written = declared_names(text);
+            let mut want = vec![];
+            tree_names(&tree, &mut want);
+            let unraw: Vec<String> = written.iter().map(|n| n.strip_prefix("r#").unwrap_or(n).to_string()).collect();
+            if unraw != want {
+                rep.mismatch(&format!("{note}: the text declares {:?}, the harness's tree {:?}", written, want), input.clone());
+            }
+            for n in &written {
+                rep.class(format!("macro name shape {}", name_shape(n)));
+            }
+        }
         let Ok((lib, dump)) = built else {
-            rep.violation(&format!("{note}: building the library panicked"), "panic build macro", input.clone());
+            if raw {
+                // the name as written (`r#…`) is not a Roto identifier: the item constructor rejected it
+                rep.class("macro raw identifier: rejected when the library is built");
+                continue;
+            }
+            viol(rep, &format!("{note}: building the library panicked: {}", PANIC_MSG.lock().map(|g| g.clone()).unwrap_or_default()), "panic build macro", input.clone());
             continue;
         };
+        if raw {
+            rep.class("macro raw identifier: registered without the prefix");
+        }
         let dumped: J = serde_json::from_str(&dump).unwrap_or(J::Null);
         if let Some(text) = uses {
             let decls = parse_use_decls(text);
@@ -1983,7 +2441,7 @@ fn macro_cases(rep: &mut Report, drv: &mut Driver, only: Option<&str>) {
                     // holds), but the source no longer does what the model says
                     rep.mismatch(&format!("{note}: the `use` item built by library! lists {:?}; the declaration lists {:?} (order)", got, want), input.clone());
                 } else if got != want {
-                    rep.violation(
+                    viol(rep, 
                         &format!("{note}: the `use` item built by library! names {:?}; the declaration names {:?}", got, want),
                         "macro-use-paths",
                         json!({"macro": note, "libs": libs_json(&[tree.clone()]), "use": text, "declaration": k, "emitted": got, "named": want}),
@@ -1991,14 +2449,14 @@ fn macro_cases(rep: &mut Report, drv: &mut Driver, only: Option<&str>) {
                 }
             }
             if emitted.len() != decls.len() {
-                rep.violation(&format!("{note}: {} use declarations, {} Use items", decls.len(), emitted.len()), "macro-use-paths", input.clone());
+                viol(rep, &format!("{note}: {} use declarations, {} Use items", decls.len(), emitted.len()), "macro-use-paths", input.clone());
             }
         }
         // (a wrong `use` path is reported above; here the tree apart from what the uses say)
         let strip = |x: String| if uses.is_some() { x.split(' ').filter(|w| !w.starts_with("use") && !w.contains("::")).collect::<Vec<_>>().join(" ") } else { x };
         let (a, b) = (strip(dump_line(&dumped, true)), strip(tree_line(&tree, true)));
         if a != b {
-            rep.violation(&format!("{note}: library! built [{a}], written [{b}]"), "macro-item-tree", input.clone());
+            viol(rep, &format!("{note}: library! built [{a}], written [{b}]"), "macro-item-tree", input.clone());
         } else {
             let (a, b) = (strip(dump_line(&dumped, false)), strip(tree_line(&tree, false)));
             if a != b {
@@ -2031,12 +2489,64 @@ fn macro_cases(rep: &mut Report, drv: &mut Driver, only: Option<&str>) {
                     };
                     if !ok {
                         let key = if sn == Seen::Panic { "panic compile macro" } else { "unreachable-at-declared-path macro" };
-                        rep.violation(&format!("{note}: item with tag {:?} not usable at {}: {:?}", p.expect, p.path.join("."), sn), key, input.clone());
+                        viol(rep, &format!("{note}: item with tag {:?} not usable at {}: {:?}", p.expect, p.path.join("."), sn), key, input.clone());
                     }
                 }
             }
-            Ok(Err(e)) => rep.violation(&format!("{note}: rejected: {}", err_kind(&e)), &format!("rejected-valid {} macro", err_kind(&e)), input.clone()),
-            Err(_) => rep.violation(&format!("{note}: panicked"), "panic add macro", input.clone()),
+            Ok(Err(e)) => viol(rep, &format!("{note}: rejected: {}", err_kind(&e)), &format!("rejected-valid {} macro", err_kind(&e)), input.clone()),
+            Err(_) => viol(rep, &format!("{note}: panicked"), "panic add macro", input.clone()),
+        }
+    }
+}
+
+// ------------------------------------------------------------------ reporting
+
+static PER_KEY: Mutex<BTreeMap<String, u32>> = Mutex::new(BTreeMap::new());
+/// at most this many violations per key are kept (per worker, and again when the workers' reports are merged):
+/// the open finding's keys fire on every session with a `use` inside a module and must not crowd out a rare key
+const KEEP_PER_KEY: u32 = 4;
+
+fn viol(rep: &mut Report, what: &str, key: &str, input: J) {
+    let mut g = PER_KEY.lock().unwrap();
+    let c = g.entry(key.to_string()).or_insert(0);
+    if *c < KEEP_PER_KEY {
+        *c += 1;
+        rep.violation(what, key, input);
+    }
+}
+
+/// `worker::run_batches` with the violations merged per key (see `KEEP_PER_KEY`) instead of first come first kept
+fn run_batches_per_key(prefix: &[&str], total: u64, batch: u64, timeout: Duration, rep: &mut Report, mut on_crash: impl FnMut(&mut Report, u64, &Ended)) {
+    let mut per_key: BTreeMap<String, u32> = BTreeMap::new();
+    let mut from = 0u64;
+    while from < total {
+        let n = batch.min(total - from);
+        let (f, c) = (from.to_string(), n.to_string());
+        let mut args: Vec<&str> = prefix.to_vec();
+        args.push(&f);
+        args.push(&c);
+        let (ended, out) = worker::run_worker_keep_stdout(&args, timeout);
+        let crashed = !matches!(ended, Ended::Exit(0, _));
+        if let Some(mut v) = Report::parse_stdout(&out) {
+            if let Some(a) = v["impl_violations"].as_array().cloned() {
+                for x in a {
+                    let k = x["key"].as_str().unwrap_or("").to_string();
+                    let c = per_key.entry(k).or_insert(0);
+                    if *c < KEEP_PER_KEY && rep.impl_violations.len() < 2000 {
+                        *c += 1;
+                        rep.impl_violations.push(x);
+                    }
+                }
+            }
+            v["impl_violations"] = json!([]);
+            rep.merge_json(&v);
+        }
+        if crashed {
+            let last = out.lines().rev().find_map(|l| l.strip_prefix("START ")).and_then(|s| s.trim().parse::<u64>().ok()).unwrap_or(from);
+            on_crash(rep, last, &ended);
+            from = last + 1;
+        } else {
+            from += n;
         }
     }
 }
@@ -2050,7 +2560,7 @@ fn runtime_constructible(rep: &mut Report) -> bool {
     }
     let m = PANIC_MSG.lock().map(|g| g.clone()).unwrap_or_default();
     rep.evaluations += 1;
-    rep.violation(&format!("Runtime::new() panicked (registration of the built-in library): {m}"), "panic runtime-new", json!({"libs": [[]], "note": "Runtime::new()", "index": 0}));
+    viol(rep, &format!("Runtime::new() panicked (registration of the built-in library): {m}"), "panic runtime-new", json!({"libs": [[]], "note": "Runtime::new()", "index": 0}));
     false
 }
 
@@ -2096,7 +2606,7 @@ fn main() {
             let total: u64 = if tier == "thorough" { 20000 } else { 600 };
             let mut rep = Report::default();
             let seed_s = seed.to_string();
-            worker::run_batches(&[&seed_s, tier], total, 250, Duration::from_secs(900), &mut rep, |rep, last, ended| {
+            run_batches_per_key(&[&seed_s, tier], total, 250, Duration::from_secs(900), &mut rep, |rep, last, ended| {
                 let (variants, note) = if (last as usize) < fixed_cases().len() {
                     let (l, n) = fixed_cases()[last as usize].clone();
                     (vec![l], n.to_string())
@@ -2110,7 +2620,7 @@ fn main() {
                     Ended::Timeout => "timeout".into(),
                     Ended::Exit(c, _) => format!("exit {c}"),
                 };
-                rep.violation(
+                viol(rep, 
                     &format!("worker died ({how}) while registering / probing a library ({note})"),
                     &format!("crash {how}"),
                     json!({"libs": libs_json(&variants[0]), "note": note, "index": last}),
